@@ -22,3 +22,17 @@ int orc_ngp(void);
 /* ---- generic small helpers kept out of instrumented code ---- */
 struct orc_counter { long v; };
 #endif
+
+/* ---- callback oracle (call_rcu / rcu_barrier) ---- */
+#ifndef SCEN_ORACLE_CB_H
+#define SCEN_ORACLE_CB_H
+int orc_cb_new(int who);			/* BEFORE call_rcu() is entered */
+void orc_cb_called(int cb);			/* AFTER call_rcu() returned */
+void orc_cb_start(int cb, const char *what);	/* at callback entry: exactly-once + interval check */
+void orc_cb_end(int cb);			/* last statement of the callback */
+int orc_barrier_enter(int who);			/* BEFORE rcu_barrier() is entered */
+void orc_barrier_return(int b);			/* AFTER it returned */
+void orc_cb_final_check(const char *what);	/* every callback ran exactly once */
+int orc_ncb(void);
+int orc_cb_count(int cb);
+#endif
